@@ -3,7 +3,7 @@
    The screen is what the independent interpreter TermGrid makes of the characters written. *)
 From RichModel Require Import Prelude Cells TermGrid Live SpecLive.
 From RichGen Require Import LiveCodes.
-From RichProofs Require Import TermGridP LiveP CursorP LiveP2 LiveP3 LiveP4.
+From RichProofs Require Import TermGridP LiveP CursorP LiveP2 LiveP3 LiveP4 LiveP5.
 From RichProofs.bridge Require BridgeLive.   (* tie 1 (T2): LiveRender.position_cursor/restore_cursor regenerated statement by statement *)
 
 (* (1) erase_clears: position_cursor for a frame of h rows, interpreted with the cursor on the last
@@ -87,6 +87,53 @@ Theorem C10_cursor_never_above : forall c f0 ops, nofault c -> ops_ok c (st0 c f
   cursor_ok_b (Hn c) (run_chunks c (st0 c f0) ops) = true.
 Proof. exact cursor_never_above. Qed.
 Print Assumptions C10_cursor_never_above.
+
+(* (2'') The same three statements WITHOUT the `nofault` hypothesis: any render / get_renderable
+   fault index, either exception kind, raising user renderables (PrintRaise).  A history runs until
+   the first exception; the side condition `ops_ok_f` is `ops_ok` evaluated up to that point.
+   Whatever raised: the screen shows the printed lines and the frame last drawn (a render that raises
+   writes nothing and leaves the recorded shape alone; a raising start()/stop() only toggles the
+   cursor), the cursor is hidden exactly while started, and it never went above the region. *)
+Theorem C10_screen_invariant_any_fault : forall c f0 ops, ops_ok_f c (st0 c f0) ops = true ->
+  let s := fst (run_ops c (st0 c f0) ops) in
+  view_ok_b (Hn c) (g_live s) (g_printed s) (g_shown s) (out s) = true
+  /\ cursor_vis_ok_b (Hn c) (started s) (out s) = true
+  /\ cursor_ok_b (Hn c) (run_chunks c (st0 c f0) ops) = true.
+Proof. exact screen_invariant_f. Qed.
+Print Assumptions C10_screen_invariant_any_fault.
+
+(* ... and for `with display: body`: start() raising (no __exit__), the body raising at any point
+   (then stop() runs on the state the exception left), stop() raising -- after the block the screen
+   is the printed lines followed by what stop() kept / what was drawn last.  Together with
+   C10_cleanup_on_raise and C10_exception_propagates this is the property's second sentence. *)
+Theorem C10_block_screen_any_fault : forall c f0 pre body, block_ok c f0 pre body = true ->
+  let s := fst (run_block c f0 pre body) in
+  view_ok_b (Hn c) (g_live s) (g_printed s) (g_shown s) (out s) = true
+  /\ cursor_vis_ok_b (Hn c) (started s) (out s) = true.
+Proof. exact block_screen. Qed.
+Print Assumptions C10_block_screen_any_fault.
+
+Example C10_any_fault_nonvacuous :
+  forallb (fun k => block_ok (fx_cfg false true (Some k) None) (w_lines 2) [w_lines 1] fx_body
+                    && block_ok (fx_cfg true false (Some k) None) (w_lines 2) [w_lines 1] fx_body
+                    && block_ok (fx_cfg true false None (Some k)) (w_lines 2) [w_lines 1] fx_body)
+          (seq 0 8) = true.
+Proof. exact block_ok_nonvacuous. Qed.
+
+(* WHAT THE ABSTRACTION COVERS.
+   * print / log: an operation `Print ls` is "Console.print of something that renders to the lines ls";
+     the theorems quantify over ALL ls.  Console.log goes through the same hook loop as Console.print
+     (T3 facts below, regenerated from rich/console.py), so a log call -- with or without the
+     log_time / log_path columns -- is a Print of the lines LogRender produces.  `Log ls` is the special
+     case exercised by the harness (log_time=False, log_path=False: each line padded to the width);
+     the text of the time / path columns is NOT modelled (it is covered only as "some lines").
+   * Status.update(status=, spinner=, ...): inside the theorems as `Update f true` for the frame f that
+     the (spinner, status) grid row renders to -- every f.  Which cells that row consists of
+     (harness function status_lines, 1-3 cell spinners) is VALIDATED ONLY, by byte equality on every
+     generated Status history; it is table layout (C07), not a C10 claim. *)
+Example C10_print_and_log_apply_the_hooks :
+  console_print_applies_hooks = true /\ console_log_applies_hooks = true.
+Proof. split; reflexivity. Qed.
 
 (* Status: rich/status.py is a thin wrapper and the model treats it as exactly that; the facts are
    regenerated from the source on every run (an edit breaks this obligation).  What the spinner and the
